@@ -195,7 +195,11 @@ fn query_shapes2(idb: &str) -> Vec<Clause> {
 /// F2: an IDB head with 2..3 clauses (scan ∪ join, join ∪ join, ...), then a query reading it.
 pub fn f2(b: &Bounds) -> Vec<GenProg> {
     let rels: &[(&str, usize)] = &[("e", 2), ("f", 2)];
-    let pool: Vec<(Vec<Atom>, u8)> = bodies(rels, 2, 3, &[], false);
+    let mut pool: Vec<(Vec<Atom>, u8)> = bodies(rels, 2, 3, &[], false);
+    if b.quick {
+        // quick bound: join clauses over e only (scan clauses over e and f)
+        pool.retain(|(atoms, _)| atoms.len() == 1 || atoms.iter().all(|a| a.rel == "e"));
+    }
     // clause candidates: binary head over body variables
     let mut cands: Vec<Clause> = vec![];
     for (atoms, nv) in &pool {
